@@ -340,7 +340,43 @@ def sh(cmd, **kw):
     return subprocess.run(cmd, shell=isinstance(cmd, str), capture_output=True, text=True, **kw)
 
 
+def regress(ids):
+    """re-run only the own property's check for each seeded change (meta.json is left alone); the outcome
+    goes to seeded/REGRESSION.md"""
+    assert sh("git -C /repo status --porcelain").stdout.strip() == "", "/repo is not clean"
+    out = []
+    for mid in ids:
+        prop, needs, checks = INFO[mid]
+        patch = os.path.join(SEEDED, mid, "patch.diff")
+        r = sh(["git", "-C", "/repo", "apply", "--3way", patch])
+        if r.returncode != 0:
+            out.append((mid, prop, "patch does not apply"))
+            sh("git -C /repo reset -q --hard HEAD")
+            print(mid, "patch does not apply", flush=True)
+            continue
+        try:
+            t0 = time.time()
+            rr = sh([os.path.join(VERIF, "check"), prop], cwd=VERIF)
+            viol = [l for l in rr.stdout.splitlines() if l.startswith("VIOLATION")]
+            withinput = sum(1 for l in viol if not l.endswith("no-failing-input-found"))
+            verdict = "caught (%d with a failing input)" % withinput if rr.returncode == 1 else "**MISSED**"
+            out.append((mid, prop, "%s, %.0f s" % (verdict, time.time() - t0)))
+        finally:
+            sh("git -C /repo reset -q --hard HEAD")
+        print(mid, out[-1][2], flush=True)
+    assert sh("git -C /repo status --porcelain").stdout.strip() == "", "/repo left dirty"
+    path = os.path.join(SEEDED, "REGRESSION.md")
+    old = open(path).read().splitlines()[2:] if os.path.exists(path) else []
+    keep = {l.split("|")[1].strip(): l for l in old if l.startswith("|")}
+    for mid, prop, v in out:
+        keep[mid] = "| %s | %s | %s |" % (mid, prop, v)
+    open(path, "w").write("| change | own property's check (quick tier), re-run after all later strengthening | \n|---|---|---|\n".replace("| change | own", "| change | property | own")
+                          + "\n".join(keep[k] for k in sorted(keep)) + "\n")
+
+
 def main():
+    if len(sys.argv) > 1 and sys.argv[1] == "--regress":
+        return regress(sys.argv[2:] or sorted(INFO))
     ids = sys.argv[1:] or sorted(INFO)
     assert sh("git -C /repo status --porcelain").stdout.strip() == "", "/repo is not clean"
     rows = []
